@@ -209,6 +209,7 @@ func main() {
 			bound = 2
 		}
 		hs := scen.C06Histories(tier)
+		skipped := scen.C06Skipped
 		so := &shardOut{Sites: map[string]int{}}
 		deadline := time.Now().Add(70 * time.Second)
 		if tier == "thorough" {
@@ -225,6 +226,9 @@ func main() {
 			}
 			checkHistory(h, bound, so)
 			done++
+		}
+		for _, sk := range skipped {
+			so.Harness = append(so.Harness, "scenario contributed no histories (its set-up failed on this tree): "+sk)
 		}
 		bz, _ := json.Marshal(so)
 		_ = os.WriteFile(os.Args[5], bz, 0o644)
